@@ -62,12 +62,15 @@ Definition An : annot := fun id =>
   | 27 => [ (mkA [] false); (mkA [OWN] false); (mkA [OWN; TM2] false); (mkA [OWN; TM2] false); (mkA [OWN; TM2] false); (mkA [OWN; TM2] false); (mkA [OWN; TM2] false); (mkA [OWN; TM2] false); (mkA [OWN] false); (mkA [OWN] false); (mkA [OWN; SM] false); (mkA [OWN; SM] false); (mkA [IMS; OWN; SM] false); (mkA [IMS; OWN; SM] false); (mkA [OWN; SM] false); (mkA [OWN; SM] false); (mkA [OWN; SM] false); (mkA [OWN; SM] false); (mkA [OWN; SM] false); (mkA [OWN] false); (mkA [OWN] false); (mkA [OWN] false); (mkA [OWN] false); (mkA [IMS; OWN] false); (mkA [IMS; OWN] false); (mkA [OWN] false); (mkA [OWN] false); (mkA [OWN; TM2] false); (mkA [OWN; TM2] false); (mkA [OWN] false); (mkA [OWN] false); (mkA [OWN] false); (mkA [OWN] false); (mkA [OWN; TM2] false); (mkA [OWN; TM2] false); (mkA [OWN] false); (mkA [IMS; OWN] false); (mkA [IMS; OWN] false); (mkA [OWN] false); (mkA [] false) ]
   | 28 => [ (mkA [] false); (mkA [SM2] false); (mkA [SM2] false); (mkA [IMS; SM2] false); (mkA [IMS; SM2] false); (mkA [SM2] false); (mkA [SM2] false); (mkA [SM2] false); (mkA [SM2] false); (mkA [SM2] false); (mkA [] false) ]
   | 29 => [ (mkA [] false); (mkA [OWN] false); (mkA [OWN; TM2] false); (mkA [OWN; TM2] false); (mkA [OWN; TM2] false); (mkA [OWN; TM2] false); (mkA [OWN; TM2] false); (mkA [OWN; TM2] false); (mkA [OWN] false); (mkA [OWN] false); (mkA [IMS; OWN] false); (mkA [IMS; OWN] false); (mkA [OWN] false); (mkA [OWN] false); (mkA [OWN; TM2] false); (mkA [OWN; TM2] false); (mkA [OWN] false); (mkA [OWN] false); (mkA [OWN] false); (mkA [OWN] false); (mkA [OWN; TM2] false); (mkA [OWN; TM2] false); (mkA [OWN] false); (mkA [IMS; OWN] false); (mkA [IMS; OWN] false); (mkA [OWN] false); (mkA [] false) ]
+  | 30 => [ (mkA [] false); (mkA [TMA] false); (mkA [TMA] false); (mkA [] false); (mkA [] false); (mkA [PLM] false); (mkA [PLM] false); (mkA [PLM] true); (mkA [] true); (mkA [] false); (mkA [PLM] false); (mkA [PLM] false); (mkA [PLM] false); (mkA [PLM] false); (mkA [] false); (mkA [PLM] false); (mkA [PLM] false); (mkA [PLM] false); (mkA [PLM] false); (mkA [PLM] false); (mkA [] false) ]
+  | 31 => [ (mkA [] false); (mkA [TMB] false); (mkA [TMB] false); (mkA [] false); (mkA [] false); (mkA [PLM] false); (mkA [PLM] false); (mkA [PLM] true); (mkA [] true); (mkA [] false); (mkA [PLM] false); (mkA [PLM] false); (mkA [PLM] false); (mkA [PLM] false); (mkA [] false); (mkA [PLM] false); (mkA [PLM] false); (mkA [PLM] false); (mkA [PLM] false); (mkA [PLM] false); (mkA [] false) ]
+  | 32 => [ (mkA [] false); (mkA [FM] false); (mkA [FM] false); (mkA [] false); (mkA [FM] false); (mkA [FM] false); (mkA [] false); (mkA [] false); (mkA [] false); (mkA [] false); (mkA [FM] false); (mkA [FM] false); (mkA [] false); (mkA [FM3] false); (mkA [FM3] false); (mkA [] false); (mkA [] false); (mkA [] false); (mkA [] false); (mkA [FM] false); (mkA [FM] false); (mkA [] false); (mkA [FM] false); (mkA [FM] false); (mkA [] false); (mkA [FM] false); (mkA [FM] false); (mkA [] false); (mkA [] false); (mkA [] false); (mkA [] false); (mkA [FM] false); (mkA [FM] false); (mkA [] false); (mkA [FM] false); (mkA [FM] false); (mkA [] false); (mkA [] false); (mkA [] false); (mkA [] false); (mkA [FM] false); (mkA [FM] false); (mkA [] false); (mkA [FM] false); (mkA [FM] false); (mkA [] false); (mkA [] false); (mkA [] false); (mkA [] false); (mkA [FM] false); (mkA [FM] false); (mkA [] false); (mkA [] false); (mkA [FM] false); (mkA [FM] false); (mkA [FM] false); (mkA [FM] false); (mkA [FM] false); (mkA [] false); (mkA [] false); (mkA [FM] false); (mkA [FM] false); (mkA [] false); (mkA [] false); (mkA [] false); (mkA [] false); (mkA [FM] false); (mkA [FM] false); (mkA [] false); (mkA [] false); (mkA [] false); (mkA [] false); (mkA [FM] false); (mkA [FM] false); (mkA [] false); (mkA [] false); (mkA [] false); (mkA [] false); (mkA [] false); (mkA [] false) ]
   | _ => []
   end.
 
 Lemma check_all : forall id, check_prog gv gq (P id) (An id) = true.
 Proof.
-  intros id. do 30 (destruct id as [|id]; [vm_compute; reflexivity|]). reflexivity.
+  intros id. do 33 (destruct id as [|id]; [vm_compute; reflexivity|]). reflexivity.
 Qed.
 
 (* the pre-fix code does not pass: Thread::Join wrote m_running without Thread::m_mutex *)
@@ -89,7 +92,9 @@ Inductive initial : state -> Prop :=
 | init_pf : initial init_prefs
 | init_pf2 : initial init_prefs2
 | init_pfj : initial init_prefsj
-| init_tm : initial init_term.
+| init_tm : initial init_term
+| init_plr n r : initial (init_poolre n r)
+| init_fa : initial init_fut_asg.
 
 Lemma initial_inv s0 : initial s0 -> Inv P An s0 /\ fault s0 = None.
 Proof.
@@ -115,4 +120,6 @@ Proof.
   - destruct t as [|[|[|i]]]; cbn; auto.
   - destruct t as [|[|i]]; cbn; auto.
   - destruct t as [|[|[|i]]]; cbn; auto.
+  - destruct t as [|[|[|i]]]; cbn; auto.
+  - destruct t as [|[|i]]; cbn; auto.
 Qed.
